@@ -82,6 +82,10 @@ def check(ctx: Ctx):
     from . import c10
 
     c03._guarded(ctx, "R10.1", c10.check_crop_data)
+    # the global metrics are computed one after the other on ONE binarised pair: no kernel may change it (R15.8)
+    from . import c15 as _c15k
+
+    c03._guarded(ctx, "R15.8", _c15k.check_kernel_purity)
     c03._guarded(ctx, "R10.3", c10.check_crop_mask)
     # results of later evaluations (another group, a flipped copy, the exchanged pair, a second
     # threshold) are only meaningful if no step writes into the caller's arrays (R15.8)
